@@ -87,7 +87,7 @@ def cases(ctx):
                 yield ("hist",) + seq
 
 
-HIST_OPS = [("write", 0), ("write", 1), ("payload",), ("append",), ("pop",), ("comment",), ("tag",), ("declared",)]
+HIST_OPS = [("write", 0), ("write", 1), ("payload",), ("append",), ("pop",), ("comment",), ("tag",), ("declared",), ("readback",)]
 
 
 def run_history(ctx, seq):
@@ -96,10 +96,16 @@ def run_history(ctx, seq):
     keys = [None, ctx.sym("c01-hk")]
     f = Bf3File({"FirmwareId": "1053"}, [shapes.mk_component({"tags": TAGS[1], "content": shapes.payload(ctx, "c01-h0", 21, 1), "declared": 21, "enc": False})])
     counter = 0
+    last = None
     for step, oi in enumerate(seq):
         op = HIST_OPS[oi]
         counter += 1
-        if op[0] == "payload":
+        if op[0] == "readback":
+            # continue with the object obtained by reading the last written text (objects built by the reader)
+            if last is None:
+                return Outcome("no-file-written-yet", False)
+            f = Bf3File.read_file(io.StringIO(last[0]), True, *last[1])
+        elif op[0] == "payload":
             if f.components:
                 c = f.components[0]
                 c.blob = shapes.payload(ctx, "c01-h%d" % counter, 17 + counter, counter % 3)
@@ -125,6 +131,7 @@ def run_history(ctx, seq):
             want = [shapes.view_component(c) for c in f.components]
             s = io.StringIO()
             f.write_file(s, *kargs)
+            last = (s.getvalue(), kargs)
             try:
                 g = Bf3File.read_file(io.StringIO(s.getvalue()), True, *kargs)
             except Exception as e:
